@@ -41,6 +41,9 @@ var denyPrefixes = []string{
 }
 
 func defaultDeny(path string) bool {
+	if path == "sync/atomic" {
+		return false // typed wrappers are plain Go over the primitives, which are intrinsics
+	}
 	for _, d := range denyPrefixes {
 		if path == d || strings.HasPrefix(path, d+"/") {
 			return true
